@@ -2,6 +2,7 @@ import Ruint.Model.DivUint
 import Ruint.Lemmas.Div.Uint
 import Ruint.Lemmas.Div.GenUintDiv
 import Ruint.Props.C14
+import Ruint.Lemmas.GenBinOps
 /-!
 # C03 — division and remainder satisfy the Euclidean contract at the `Uint` surface
 
@@ -285,5 +286,22 @@ end gen
 theorem gen_is_zero_eq (bits : ℕ) (a : List ℕ) (ha : a.length = nlimbs bits) :
     Ruint.Gen.uint_is_zero bits (nlimbs bits) a = isZero a :=
   Ruint.Div.GenUintDiv.is_zero_eq bits a ha
+
+/-- the six operator shapes of `/` and `%` (`impl_bin_op!`, regenerated from `src/macros.rs`) are `wrapping_div` / `wrapping_rem`
+    on the same operands in the same order, panic outcome included. -/
+theorem gen_div_rem_operator_shapes (f bits L : Nat) (a b : List Nat) :
+    (Ruint.Gen.op_div_assign_val f bits L a b = Ruint.Gen.uint_wrapping_div f bits L a b
+      ∧ Ruint.Gen.op_div_assign_ref f bits L a b = Ruint.Gen.uint_wrapping_div f bits L a b
+      ∧ Ruint.Gen.op_div_val_val f bits L a b = Ruint.Gen.uint_wrapping_div f bits L a b
+      ∧ Ruint.Gen.op_div_val_ref f bits L a b = Ruint.Gen.uint_wrapping_div f bits L a b
+      ∧ Ruint.Gen.op_div_ref_val f bits L a b = Ruint.Gen.uint_wrapping_div f bits L a b
+      ∧ Ruint.Gen.op_div_ref_ref f bits L a b = Ruint.Gen.uint_wrapping_div f bits L a b)
+    ∧ (Ruint.Gen.op_rem_assign_val f bits L a b = Ruint.Gen.uint_wrapping_rem f bits L a b
+      ∧ Ruint.Gen.op_rem_assign_ref f bits L a b = Ruint.Gen.uint_wrapping_rem f bits L a b
+      ∧ Ruint.Gen.op_rem_val_val f bits L a b = Ruint.Gen.uint_wrapping_rem f bits L a b
+      ∧ Ruint.Gen.op_rem_val_ref f bits L a b = Ruint.Gen.uint_wrapping_rem f bits L a b
+      ∧ Ruint.Gen.op_rem_ref_val f bits L a b = Ruint.Gen.uint_wrapping_rem f bits L a b
+      ∧ Ruint.Gen.op_rem_ref_ref f bits L a b = Ruint.Gen.uint_wrapping_rem f bits L a b) :=
+  ⟨Ruint.GenBinOps.div_shapes f bits L a b, Ruint.GenBinOps.rem_shapes f bits L a b⟩
 
 end Ruint.C03
